@@ -78,11 +78,11 @@ def main():
         valid = (rc0 == 0 and rc1 != 0 and missing == [])
         meta["valid_seeded_defect"] = valid
         # run checks against the patched worktree, keeping the real evidence files safe
-        evdir = os.path.join(VERIF, "evidence")
-        keep = os.path.join(VERIF, ".scratch", "evidence-keep-%d" % os.getpid())
-        shutil.copytree(evdir, keep)
+        side = "/var/tmp/seedeval-%d" % os.getpid()
+        os.makedirs(side, exist_ok=True)
         results = {}
-        env = dict(os.environ, VERIF_REPO=wt, VERIF_SEED=a.seed)
+        env = dict(os.environ, VERIF_REPO=wt, VERIF_SEED=a.seed, VERIF_EVIDENCE_DIR=os.path.join(side, "evidence"),
+                   VERIF_REPLAY_DIR=os.path.join(side, "replays"))
         for c in checks:
             t = time.time()
             rcc, outc = sh(["./check", c, "--tier", a.tier], cwd=VERIF, env=env, timeout=7200)
@@ -90,8 +90,7 @@ def main():
             keys = [l.strip()[:220] for l in outc.split("\n") if l.strip().startswith("key=")]
             results[c] = {"exit": rcc, "violations": len(viol), "first_keys": keys[:4], "wall_s": round(time.time() - t, 1),
                           "summary": [l for l in outc.split("\n") if l.startswith(c + " tier")][:1]}
-        shutil.rmtree(evdir)
-        shutil.move(keep, evdir)
+        shutil.rmtree(side, ignore_errors=True)
         meta["check_results"] = results
         meta["caught_by"] = sorted(c for c, r in results.items() if r["exit"] == 1)
     finally:
